@@ -7,7 +7,7 @@
    L is the list of (method, binding) pairs registered so far -- annotation, additional bindings,
    service-config rules and the implicit /Service/Method binding alike (decl_bindings). *)
 From Larking Require Import Base.GoSem Model.Lexer Model.Trie Model.Match Spec.Grammar Spec.Route
-  Proofs.LexerProofs Proofs.MatchProofs Proofs.TrieProofs Proofs.RoutingProofs.
+  Proofs.LexerProofs Proofs.MatchProofs Proofs.TrieProofs Proofs.RoutingProofs Proofs.SpellProofs.
 Local Open Scope N_scope.
 
 (* every trie that any history of registerService calls publishes satisfies the registration
@@ -43,6 +43,21 @@ Theorem C01_path_tokens : forall isLetter isNumber p toks,
   PathToks isLetter isNumber toks /\ spell toks = p /\ (length toks <= 64)%nat.
 Proof. exact lex_path_sound. Qed.
 Print Assumptions C01_path_tokens.
+
+(* the same read back as text: the (normalised) request path is the registered template's edge
+   sequence with every literal piece spelled as registered and every variable replaced by "/" and
+   its capture, in order -- so the fields hold exactly the path text the variables cover, and every
+   other character of the path is a literal of the template *)
+Theorem C01_path_is_instance :
+  forall isLetter isNumber resolves okconv, Sane isLetter isNumber ->
+  forall L root verb p m caps,
+  Inv isLetter isNumber resolves L root -> route okconv isLetter isNumber root verb p = Ok (m, caps) ->
+  exists mid b es,
+    In (mid, b) L /\ m_id m = mid /\ covers_verb (b_verb b) verb /\
+    compiled isLetter isNumber resolves mid b es (m_vars m) /\
+    fill es (rev caps) = Some (normalise p).
+Proof. exact path_is_instance. Qed.
+Print Assumptions C01_path_is_instance.
 
 (* a variable's capture is determined by its pattern and the tokens: variable.index returns exactly
    the covering the specification describes, or reports that there is none *)
